@@ -1,9 +1,198 @@
-import PkgModel.Marker
-import PkgModel.Spec.Pep508
+import PkgProofs.Lemmas.MarkerEval
 /-!
 # C07 — Marker evaluation follows PEP 508 semantics
+
+Model: `Mk.evaluate` (= `Marker.evaluate`: `buildEnv`, `_evaluate_markers`' `groups` loop, `_eval_op`,
+`_normalize`), `Mk.parseFull` (the recursive-descent parser, generic in the token stream).
+Spec: `Pep508.Formula.eval`, `Pep508.atomSem`, `Pep508.effEnv`, `Pep508.Expr` (concrete syntax).
+External: `Mk.Ext` (`specMatch`, `canonName`) — arbitrary in every theorem.
+
+All statements quantify over arbitrary nesting depth, list length, strings and environments.
 -/
 namespace C07
-open Py Mk Pep508
+open Py Mk Pep508 MkEval
+set_option linter.unusedSimpArgs false
+
+/-! ### 1. The `groups` algorithm computes the value of the or-of-ands formula the list denotes -/
+
+/-- **`_evaluate_markers` = value of the formula**, for every valuation of the comparisons (which may
+raise) and every nesting: the eager loop returns the formula's boolean value, and when a comparison
+raises, the exception of the first failing comparison (left to right). -/
+theorem groups_is_or_of_ands (ν : Atom → Res Bool) (l : List M) (f : Formula) (h : formulaOf l = some f) :
+    evalMarkers ν l = f.eval ν := by
+  unfold evalMarkers; exact list_eq ν l f h
+
+/-! ### 2. One comparison -/
+
+/-- **`_eval_op` = the statement's comparison**: specifier matching when `specMatch` answers, else the
+ordinary Python string operator (`markers._operators`, regenerated from the source), else
+`UndefinedComparison`. -/
+theorem eval_op_dispatch (X : Ext) (l op r : Str) : evalOp X l op r = compare X l op r := by
+  unfold evalOp Pep508.compare
+  cases X.specMatch op r l with
+  | some b => rfl
+  | none =>
+    simp only
+    by_cases h1 : op = s_lt
+    · subst h1; simp [Gen.MarkerTok.opTable, List.lookup, strOp, applyOp, s_lt, s_le, s_eq, s_ne, s_ge, s_gt, s_in, s_not_in]
+    by_cases h2 : op = s_le
+    · subst h2; simp [Gen.MarkerTok.opTable, List.lookup, strOp, applyOp, s_lt, s_le, s_eq, s_ne, s_ge, s_gt, s_in, s_not_in]
+    by_cases h3 : op = s_eq
+    · subst h3; simp [Gen.MarkerTok.opTable, List.lookup, strOp, applyOp, s_lt, s_le, s_eq, s_ne, s_ge, s_gt, s_in, s_not_in]
+    by_cases h4 : op = s_ne
+    · subst h4; simp [Gen.MarkerTok.opTable, List.lookup, strOp, applyOp, s_lt, s_le, s_eq, s_ne, s_ge, s_gt, s_in, s_not_in]
+    by_cases h5 : op = s_ge
+    · subst h5; simp [Gen.MarkerTok.opTable, List.lookup, strOp, applyOp, s_lt, s_le, s_eq, s_ne, s_ge, s_gt, s_in, s_not_in]
+    by_cases h6 : op = s_gt
+    · subst h6; simp [Gen.MarkerTok.opTable, List.lookup, strOp, applyOp, s_lt, s_le, s_eq, s_ne, s_ge, s_gt, s_in, s_not_in]
+    by_cases h7 : op = s_in
+    · subst h7; simp [Gen.MarkerTok.opTable, List.lookup, strOp, applyOp, s_lt, s_le, s_eq, s_ne, s_ge, s_gt, s_in, s_not_in]
+    by_cases h8 : op = s_not_in
+    · subst h8; simp [Gen.MarkerTok.opTable, List.lookup, strOp, applyOp, s_lt, s_le, s_eq, s_ne, s_ge, s_gt, s_in, s_not_in]
+    have e1 : (op == s_lt) = false := by simpa using h1
+    have e2 : (op == s_le) = false := by simpa using h2
+    have e3 : (op == s_eq) = false := by simpa using h3
+    have e4 : (op == s_ne) = false := by simpa using h4
+    have e5 : (op == s_ge) = false := by simpa using h5
+    have e6 : (op == s_gt) = false := by simpa using h6
+    have e7 : (op == s_in) = false := by simpa using h7
+    have e8 : (op == s_not_in) = false := by simpa using h8
+    simp only [s_lt, s_le, s_eq, s_ne, s_ge, s_gt, s_in, s_not_in] at e1 e2 e3 e4 e5 e6 e7 e8
+    simp [Gen.MarkerTok.opTable, List.lookup, strOp, s_lt, s_le, s_eq, s_ne, s_ge, s_gt, s_in, s_not_in, e1, e2, e3, e4, e5, e6, e7, e8]
+
+/-- the operators without a string fallback raise `UndefinedComparison` exactly when `specMatch` has no answer -/
+theorem undefined_comparison_iff (X : Ext) (l op r : Str) (h : strOp op l r = none) :
+    evalOp X l op r = .error .undefinedComparison ↔ X.specMatch op r l = none := by
+  rw [eval_op_dispatch]; unfold Pep508.compare
+  cases X.specMatch op r l <;> simp [h]
+
+theorem envFun_some {env : Env} {k v : Str} (h : envFun env k = some v) : lookupEnv env k = .ok v := by
+  unfold envFun at h; unfold lookupEnv
+  split at h <;> simp_all
+
+theorem normalize_eq (X : Ext) (l r k : Str) : normalize X l r k = (norm X k l, norm X k r) := by
+  unfold normalize norm; split <;> rfl
+
+/-- **the variable may be on either side**: whichever side the variable is on, the left operand of the
+comparison is the left operand of the operator. -/
+theorem either_side (X : Ext) (env : Env) (k s v op : Str) (h : envFun env k = some v) :
+    evalAtom X env ⟨.var k, op, .val s⟩ = compare X (norm X k v) op (norm X k s) ∧
+    evalAtom X env ⟨.val s, op, .var k⟩ = compare X (norm X k s) op (norm X k v) := by
+  have hl := envFun_some h
+  constructor <;>
+    simp [evalAtom, operands, Node.value, hl, normalize_eq, eval_op_dispatch, bind, Except.bind, Except.map]
+
+/-- a comparison between a variable and a literal (either order) has the statement's meaning -/
+theorem evalAtom_refines (X : Ext) (env : Env) (a : Atom) (r : Res Bool)
+    (h : atomSem X (envFun env) a = some r) : evalAtom X env a = r := by
+  obtain ⟨lhs, op, rhs⟩ := a
+  cases lhs with
+  | var k => cases rhs with
+    | var _ => simp [atomSem] at h
+    | val s =>
+      simp only [atomSem, Option.map_eq_some_iff] at h
+      obtain ⟨v, hv, rfl⟩ := h
+      exact (either_side X env k s v op hv).1
+  | val s => cases rhs with
+    | val _ => simp [atomSem] at h
+    | var k =>
+      simp only [atomSem, Option.map_eq_some_iff] at h
+      obtain ⟨v, hv, rfl⟩ := h
+      exact (either_side X env k s v op hv).2
+
+/-- **comparisons involving `extra` are made on normalised names, on both sides** — hence they do not
+depend on how either name is spelled. -/
+theorem extra_normalised_both_sides (X : Ext) (env : Env) (s v op : Str) (h : envFun env s_extra = some v) :
+    evalAtom X env ⟨.var s_extra, op, .val s⟩ = compare X (X.canonName v) op (X.canonName s) ∧
+    evalAtom X env ⟨.val s, op, .var s_extra⟩ = compare X (X.canonName s) op (X.canonName v) := by
+  have := either_side X env s_extra s v op h
+  simpa [norm] using this
+
+theorem extra_spelling_irrelevant (X : Ext) (env env' : Env) (s s' v v' op : Str)
+    (h : envFun env s_extra = some v) (h' : envFun env' s_extra = some v')
+    (hs : X.canonName s = X.canonName s') (hv : X.canonName v = X.canonName v') :
+    evalAtom X env ⟨.var s_extra, op, .val s⟩ = evalAtom X env' ⟨.var s_extra, op, .val s'⟩ ∧
+    evalAtom X env ⟨.val s, op, .var s_extra⟩ = evalAtom X env' ⟨.val s', op, .var s_extra⟩ := by
+  rw [(extra_normalised_both_sides X env s v op h).1, (extra_normalised_both_sides X env s v op h).2,
+    (extra_normalised_both_sides X env' s' v' op h').1, (extra_normalised_both_sides X env' s' v' op h').2, hs, hv]
+  exact ⟨rfl, rfl⟩
+
+/-! ### 3. The effective environment -/
+
+/-- **environment construction = the statement's effective environment**: detected values overridden by
+the supplied mapping, `extra` defaulting to empty and `None` read as empty, a `python_full_version`
+ending in `+` completed with `local`. -/
+theorem env_effective (dflt : List (Str × Str)) (supplied : Option Env) (env : Env)
+    (h : buildEnv dflt supplied = .ok env) (k : Str) : envFun env k = effEnv dflt supplied k :=
+  MkEval.env_effective dflt supplied env h k
+
+/-- the environment can be built whenever `python_full_version` has a string value -/
+theorem buildEnv_ok (dflt : List (Str × Str)) (supplied : Option Env) (v : Str)
+    (h : effEnv dflt supplied s_pfv = some v) : ∃ env, buildEnv dflt supplied = .ok env := by
+  rw [buildEnv_eq, cur1_get dflt supplied s_pfv]
+  have hx : s_pfv ≠ s_extra := by decide
+  unfold effEnv at h
+  cases hL : rawLookup dflt supplied s_pfv with
+  | none => simp [hL] at h
+  | some o =>
+    cases o with
+    | none => simp [hL, hx] at h
+    | some w =>
+      simp only
+      by_cases hw : endsWith w [43] = true
+      · exact ⟨_, by rw [if_pos hw]⟩
+      · exact ⟨_, by rw [if_neg hw]⟩
+
+/-! ### 4. `evaluate` = value of the formula under the statement's semantics -/
+
+def atoms : Formula → List Atom
+  | .atom a => [a]
+  | .and l r => atoms l ++ atoms r
+  | .or l r => atoms l ++ atoms r
+
+theorem eval_congr (ν₁ ν₂ : Atom → Res Bool) : (f : Formula) → (∀ a ∈ atoms f, ν₁ a = ν₂ a) → f.eval ν₁ = f.eval ν₂
+  | .atom a, h => h a (by simp [atoms])
+  | .and l r, h => by
+    simp only [Formula.eval]
+    rw [eval_congr ν₁ ν₂ l (fun a ha => h a (by simp [atoms, ha])),
+        eval_congr ν₁ ν₂ r (fun a ha => h a (by simp [atoms, ha]))]
+  | .or l r, h => by
+    simp only [Formula.eval]
+    rw [eval_congr ν₁ ν₂ l (fun a ha => h a (by simp [atoms, ha])),
+        eval_congr ν₁ ν₂ r (fun a ha => h a (by simp [atoms, ha]))]
+
+/-- the statement's meaning of a comparison in the effective environment -/
+def sem (X : Ext) (dflt : List (Str × Str)) (supplied : Option Env) (a : Atom) : Res Bool :=
+  (atomSem X (effEnv dflt supplied) a).getD (.error .undefinedEnvironmentName)
+
+/-- **Refinement.** For every marker list denoting a formula `f` whose comparisons are between a defined
+variable and a literal (either order), `Marker.evaluate` returns the boolean value of `f` under the
+statement's comparison semantics in the statement's effective environment (and raises what the first
+failing comparison raises). -/
+theorem evaluate_refines (X : Ext) (dflt : List (Str × Str)) (supplied : Option Env) (m : List M) (f : Formula)
+    (hf : formulaOf m = some f) (env : Env) (hb : buildEnv dflt supplied = .ok env)
+    (hd : ∀ a ∈ atoms f, (atomSem X (effEnv dflt supplied) a).isSome) :
+    evaluate X dflt supplied m = f.eval (sem X dflt supplied) := by
+  unfold evaluate
+  simp only [hb, bind, Except.bind]
+  rw [groups_is_or_of_ands _ m f hf]
+  apply eval_congr
+  intro a ha
+  have hfun : envFun env = effEnv dflt supplied := funext (env_effective dflt supplied env hb)
+  have := hd a ha
+  cases hs : atomSem X (effEnv dflt supplied) a with
+  | none => simp [hs] at this
+  | some r =>
+    rw [evalAtom_refines X env a r (by rw [hfun]; exact hs)]
+    simp [sem, hs]
+
+/-- **`evaluate` is a function of the marker and the effective environment only** -/
+theorem pure_of_effective_env (X : Ext) (d₁ d₂ : List (Str × Str)) (s₁ s₂ : Option Env) (m : List M) (f : Formula)
+    (hf : formulaOf m = some f) (e₁ e₂ : Env) (h₁ : buildEnv d₁ s₁ = .ok e₁) (h₂ : buildEnv d₂ s₂ = .ok e₂)
+    (hd : ∀ a ∈ atoms f, (atomSem X (effEnv d₁ s₁) a).isSome)
+    (heq : effEnv d₁ s₁ = effEnv d₂ s₂) :
+    evaluate X d₁ s₁ m = evaluate X d₂ s₂ m := by
+  rw [evaluate_refines X d₁ s₁ m f hf e₁ h₁ hd, evaluate_refines X d₂ s₂ m f hf e₂ h₂ (by rw [← heq]; exact hd)]
+  unfold sem; rw [heq]
 
 end C07
